@@ -325,7 +325,7 @@ func TestC06Orders(t *testing.T) {
 		for _, p := range perms(2 * n) {
 			for _, base := range c06Bases {
 				idx++
-				if idx%ev.Shards() != ev.Shard() {
+				if idx%ev.Shards() != ev.ShardIndex() {
 					continue
 				}
 				c := C06Case{N: n, Base: base, Order: orderFromPerm(p), Gated: true, OchCap: []int{0, 1, 1024}[idx%3]}
